@@ -60,7 +60,7 @@ BIG = [MIB, MIB + 1, MIB + 65536 + 8]
 def gen_spec(rng, big_ok: bool) -> dict:
     name = rng.choice(["m.onnx", "model.onnx", "net", "a.b.onnx"])
     d = rng.choice(["", "", "sub"])
-    style = rng.choice(["abs", "abs", "pathlib", "rel"])
+    style = rng.choice(["abs", "abs", "pathlib", "rel", "symdir"])
     spec = {"name": name, "dir": d, "style": style, "verbose": rng.choice([0, 0, 1, 1, 2]), "files": [], "inits": []}
     model_rel = L.join(d, name)
     data_rel = model_rel + ".data"
@@ -73,7 +73,7 @@ def gen_spec(rng, big_ok: bool) -> dict:
     if rng.random() < 0.5:
         flen[data_rel] = rng.choice([0, 50, 700, 2000, 4000])
     if rng.random() < 0.3:
-        flen[model_rel] = rng.choice([0, 77])
+        flen[model_rel] = rng.choice([0, 77, 77, 900])
     spec["files"] = [[f, rng.randint(0, 999), n] for f, n in flen.items()]
     n_inits = rng.choice([0, 1, 2, 3, 3, 4, 4, 5, 6])
     bigs = 0
@@ -104,6 +104,11 @@ def gen_spec(rng, big_ok: bool) -> dict:
             off = rng.randint(0, fl - n)
             inits.append(ext_init(rng, nm, sub, data_rel, off, n, valid=0 if rng.random() < 0.05 else 1))
             continue
+        if 0.44 <= r < 0.52 and flen.get(model_rel, 0) >= 8:  # external tensor stored in the file at model_path itself (C20-D5)
+            fl = flen[model_rel]
+            n = rng.choice([n for n in SMALL + MID if 0 < n <= fl])
+            inits.append(ext_init(rng, nm, sub, model_rel, rng.randint(0, fl - n), n, 1))
+            continue
         if r < 0.44:  # external tensor whose file does not exist
             inits.append(ext_init(rng, nm, sub, L.join(d, "gone.bin"), 0, rng.choice([8, 300]), 1))
             continue
@@ -123,6 +128,9 @@ def gen_spec(rng, big_ok: bool) -> dict:
         a, b2 = rng.sample(free, 2)
         if a["sub"] != b2["sub"]:
             b2["name"] = a["name"]
+    for it in inits:  # the tensor names its (existing) file through a symbolic link: another spelling of the same file
+        if it["kind"] == "E" and it["file"] in flen and rng.random() < 0.25:
+            it["via_link"] = 1
     for it in inits:  # where else the initializer's Value appears in its graph (must not matter to the save)
         it["is_input"] = 1 if rng.random() < 0.25 else 0
         it["used"] = 1 if rng.random() < 0.3 else 0
@@ -157,6 +165,28 @@ def same_name_grid(rng):
                    "inits": sorted([u, m, extra], key=lambda it: it["sub"])}
 
 
+def dest_spelling_grid(rng):
+    """A model with an initializer stored in the destination data file or in the model file (it must be refused before anything is written),
+    for every way the harness can SPELL the two paths that have to be recognised as the same file: destination given as
+    absolute str / pathlib / relative to the cwd / through a symlinked directory  x  tensor path real or through a symbolic
+    link  x  tensor above/below the 256-byte threshold  x  model in the root or a sub-directory.  A guard comparing spellings
+    instead of files misses the symlink rows."""
+    for style in ("abs", "pathlib", "rel", "symdir"):
+      for where in ("data", "model"):  # the tensor lives in <name>.data (56a0c3c) / in the file at model_path (3d20cf2)
+        for via in (0, 1):
+            for n in (100, 300):
+                for d in ("", "sub"):
+                    name = rng.choice(["m.onnx", "net"])
+                    data_rel = L.join(d, name) + (".data" if where == "data" else "")
+                    e = _ei("d", rng.choice([0, 0, 1, 3]), data_rel, rng.randint(0, 50), n)
+                    if via:
+                        e["via_link"] = 1
+                    other = _mi("a", 0, rng.choice([16, 400]), 1, rng.randint(0, 900))
+                    yield {"name": name, "dir": d, "style": style, "verbose": rng.choice([0, 1]),
+                           "files": [[data_rel, rng.randint(0, 900), 700]],
+                           "inits": sorted([other, e], key=lambda it: it["sub"])}
+
+
 def guard_grid(rng):
     """Exhaustive grid over everything a weakened guard could look at on an uninitialized initializer: graph level
     (main / then / nested / else) x also-a-graph-input x consumed-by-a-node x graph-output x shape/type metadata,
@@ -177,6 +207,72 @@ def guard_grid(rng):
                         rng.shuffle(inits)
                         yield {"name": "m.onnx", "dir": "", "style": "abs", "verbose": rng.choice([0, 1]), "files": [],
                                "inits": sorted(inits, key=lambda it: it["sub"])}
+
+
+# --------------------------------------------------------------------------- histories (several calls on one model object)
+
+
+def _mi(name, sub, n, np_, seed):
+    return {"name": name, "sub": sub, "kind": "M", "seed": seed, "len": n, "np": np_, "dtype": "UINT8", "shape": [n],
+            "is_input": 0, "used": 0, "is_output": 0}
+
+
+def _ei(name, sub, file, off, n):
+    return {"name": name, "sub": sub, "kind": "E", "file": file, "off": off, "len": n, "valid": 1, "dtype": "UINT8",
+            "shape": [n], "is_input": 0, "used": 0, "is_output": 0}
+
+
+def history_bases(rng, big_ok: bool) -> list[dict]:
+    """Models on which histories are enumerated exhaustively: every way a tensor reaches the data file (ndarray.tofile,
+    file.write, chunked copy of an external tensor, mmap load of a small external one, inline), with and without
+    pre-existing destination files, each verbosity, a sub-directory."""
+    s = rng.randint(0, 900)
+    bases = [
+        {"name": "m.onnx", "dir": "", "style": "abs", "verbose": 0, "files": [],
+         "inits": [_mi("a", 0, 400, 1, s), _mi("r", 0, 300, 0, s + 1), _mi("i", 1, 16, 1, s + 2)]},
+        {"name": "net", "dir": "sub", "style": "pathlib", "verbose": 1,
+         "files": [["sub/w.bin", s + 3, 3000], ["sub/net.data", s + 4, 700], ["sub/net", s + 5, 77]],
+         "inits": [_mi("a", 0, 260, 1, s), _ei("s", 0, "sub/w.bin", 3, 100), _ei("e", 3, "sub/w.bin", 10, 1000),
+                   _mi("z", 4, 0, 1, s + 6)]},
+        {"name": "a.b.onnx", "dir": "", "style": "rel", "verbose": 2, "files": [["a.b.onnx.data", s + 7, 50]],
+         "inits": [_mi("r", 0, 257, 0, s), _mi("k", 2, 256, 1, s + 1),
+                   {"name": "al", "sub": 3, "kind": "A", "of": "r", "is_input": 0, "used": 0, "is_output": 0}]},
+    ]
+    # refused by the second guard, every time (a tensor stored in the destination data file), and by the first (uninitialized)
+    bases.append({"name": "m.onnx", "dir": "", "style": "abs", "verbose": 0, "files": [["m.onnx.data", s + 8, 700]],
+                  "inits": [_mi("a", 0, 400, 1, s), _ei("d", 0, "m.onnx.data", 5, 300)]})
+    # refused by the model-file half of the second guard (3d20cf2, the former C20-D5 region), every time
+    bases.append({"name": "w.bin", "dir": "", "style": "abs", "verbose": 1, "files": [["w.bin", s + 9, 400]],
+                  "inits": [_ei("e", 0, "w.bin", 0, 300), _mi("a", 0, 400, 1, s)]})
+    bases.append({"name": "m.onnx", "dir": "", "style": "abs", "verbose": 0, "files": [],
+                  "inits": [_mi("a", 0, 400, 1, s), {"name": "u", "sub": 1, "kind": "U", "meta": "full", "is_input": 0,
+                                                      "used": 0, "is_output": 0}]})
+    if big_ok:
+        bases.append({"name": "m.onnx", "dir": "", "style": "abs", "verbose": 1, "files": [],
+                      "inits": [_mi("p", 0, 100 + 257, 1, s), _mi("big", 0, MIB + 1, 1, s + 1)]})
+    return bases
+
+
+def history_specs(rng, big_ok: bool, n_random: int):
+    """(spec-with-prior, ks) pairs.  `prior` lists the fault plans of earlier calls on the same model object and destination
+    (None = no fault); `ks` the fault plans of the observed call (None entry = fault-free; ks None = every fault point)."""
+    for base in history_bases(rng, big_ok):
+        n = L.run_real(base, None)["calls"]
+        # retry after a fault at EVERY file-system call of the first save: the retry is
+        # observed fault-free and at one random fault point
+        for pk in range(n):
+            yield dict(base, prior=[pk]), [None, rng.randint(0, max(n - 1, 0))]
+        # second use: after a successful save, the save is repeated over its own output, every fault point observed
+        yield dict(base, prior=[None]), None
+        # longer histories: fault, fault, success, ...
+        rk = lambda: rng.randint(0, max(n - 1, 0))
+        for pr in ([rk(), None], [None, rk(), rk()], [rk(), rk()]):
+            yield dict(base, prior=pr), [None, rk()]
+    for _ in range(n_random):  # random models (refused ones, unreadable tensors, duplicate names, ... included)
+        spec = gen_spec(rng, False)
+        n = L.run_real(spec, None)["calls"]
+        pr = [rng.choice([None, rng.randint(0, n)]) for _ in range(rng.choice([1, 1, 2]))]
+        yield dict(spec, prior=pr), [None, rng.randint(0, n)]
 
 
 # --------------------------------------------------------------------------- predicates of known findings
@@ -210,6 +306,16 @@ def pred_sub_uninit(spec: dict) -> bool:
     return bool(us) and all(it["sub"] for it in us)
 
 
+def model_file_objs(spec: dict) -> set[int]:
+    """Heap positions (objects owned by M/E initializers, spec order) of external tensors stored in the file at model_path."""
+    model_rel = L.join(spec.get("dir", ""), spec["name"])
+    owners = [it for it in spec["inits"] if it["kind"] in ("M", "E")]
+    return {j for j, it in enumerate(owners) if it["kind"] == "E" and it["file"] == model_rel and it["len"] > 0}
+
+
+D5_PREFIX = "tensor stored in the model file itself no longer reads its data"
+
+
 REFUSE = 1  # the tree carries the second guard (56a0c3c): tensors stored in the destination data file are refused
 
 
@@ -219,10 +325,16 @@ def pred_dest_path(spec: dict) -> bool:
     return any(it["kind"] == "E" and it["file"] == data_rel for it in spec["inits"])
 
 
+def pred_model_path(spec: dict) -> bool:
+    """Some initializer is an ExternalTensor whose file is the file at model_path itself (refused since 3d20cf2, C20-D5)."""
+    model_rel = L.join(spec.get("dir", ""), spec["name"])
+    return any(it["kind"] == "E" and it["file"] == model_rel for it in spec["inits"])
+
+
 def well_formed(spec: dict) -> bool:
     """No uninitialized initializer, every external tensor valid and inside an existing file (and, when the tree has the
     second guard, none stored in the destination data file: such a model is refused by contract)."""
-    if REFUSE and pred_dest_path(spec):
+    if REFUSE and (pred_dest_path(spec) or pred_model_path(spec)):
         return False
     flen = {f: n for f, _s, n in spec.get("files", [])}
     for it in spec["inits"]:
@@ -248,14 +360,20 @@ def oracle(spec: dict, k, r: dict) -> list[tuple[str, str]]:
         if r["res"] != "ValueError" or r["calls"] != 0 or a["files"] != b["files"]:
             out.append(("guard", f"uninitialized initializer present but res={r['res']} fs_calls={r['calls']} "
                         f"files_changed={a['files'] != b['files']}"))
-    elif REFUSE and pred_dest_path(spec):
+    elif REFUSE and (pred_dest_path(spec) or pred_model_path(spec)):
         if r["res"] != "ValueError" or r["calls"] != 0 or a["files"] != b["files"]:
-            out.append(("guard", f"an initializer is stored in the destination data file but res={r['res']} "
+            which = "destination data file" if pred_dest_path(spec) else "model file itself"
+            out.append(("guard", f"an initializer is stored in the {which} but res={r['res']} "
                         f"fs_calls={r['calls']} files_changed={a['files'] != b['files']}"))
     if a["ids"] != b["ids"]:
         out.append(("unchanged", "const_value identities differ after the call"))
     if a["heap"] != b["heap"]:
-        out.append(("unchanged", f"tensor objects changed: before {b['heap']} after {a['heap']}"))
+        hb, ha = b["heap"].split(","), a["heap"].split(",")
+        changed = {j for j in range(max(len(hb), len(ha))) if j >= len(hb) or j >= len(ha) or hb[j] != ha[j]}
+        if changed <= model_file_objs(spec):  # only tensors whose backing file IS the model file (C20-D5, fixed 3d20cf2)
+            out.append(("unchanged", f"{D5_PREFIX}: before {b['heap']} after {a['heap']}"))
+        else:
+            out.append(("unchanged", f"tensor objects changed: before {b['heap']} after {a['heap']}"))
     if a["graph"] != b["graph"]:
         strip = lambda g: [ln.rsplit(", ", 1)[0] if ln.startswith(" I ") else ln for ln in g.split("\n")]
         out.append(("unchanged", "graph structure changed" if strip(a["graph"]) != strip(b["graph"])
@@ -288,6 +406,8 @@ def classify(spec: dict, clause: str, detail: str = "") -> str | None:
         return "C20-D2"
     if clause == "unchanged" and detail.endswith("tensor names changed") and pred_rename(spec):
         return "C20-D4"
+    if clause == "unchanged" and detail.startswith(D5_PREFIX) and model_file_objs(spec):
+        return "C20-D5"  # fixed in 3d20cf2: not an open finding any more, so a recurrence is reported as a VIOLATION
     if clause == "unchanged" and pred_dest_ref(spec):
         return "C20-D1"
     if clause == "roundtrip" and pred_dest_ref(spec) and pred_dest_alias(spec):
@@ -298,13 +418,14 @@ def classify(spec: dict, clause: str, detail: str = "") -> str | None:
 # --------------------------------------------------------------------------- one case = one spec × all fault points
 
 
-def check_spec(drv, spec: dict, deep, stats: Counter, ks=None):
-    """Returns (tie_problems, property_problems); each item (spec, k, detail[, clause])."""
+def check_spec(drv, spec: dict, deep, stats: Counter, ks=None, tie=True):
+    """Returns (tie_problems, property_problems); each item (spec, k, detail[, clause]).  `tie=False`: the property's
+    oracle only (runs whose file leftovers the Lean model does not describe: partial writes)."""
     r0 = L.run_real(spec, None)
     n = r0["calls"]
     if ks is None:
         ks = [None] + list(range(n + 1))
-    outs = drv.ask([L.model_line(spec, k, deep) for k in ks])
+    outs = drv.ask([L.model_line(spec, k, deep) for k in ks]) if tie else [None] * len(ks)
     ties, props = [], []
     for k, mline in zip(ks, outs):
         r = r0 if k is None else L.run_real(spec, k)
@@ -314,7 +435,11 @@ def check_spec(drv, spec: dict, deep, stats: Counter, ks=None):
             stats["faults_fired"] += 1
             op = r["line"].split("trace=")[1].split(" | ")[0].split(",")[k].split(":")[0]
             stats["fault_at_" + op] += 1
-        if r["line"] != mline:
+        if r.get("partial_fired"):
+            stats["partial_write_faults"] += r["partial_fired"]
+            if spec.get("prior") and r["res"] == "ok":
+                stats["partial_write_then_retry_ok"] += 1
+        if tie and r["line"] != mline:
             diffs = [f"{x} ≠ model {y}" for x, y in zip(r["line"].split(" | "), mline.split(" | ")) if x != y]
             ties.append((spec, k, "; ".join(diffs)[:900]))
         if r["ndesc"] != r["updates"]:
@@ -322,6 +447,22 @@ def check_spec(drv, spec: dict, deep, stats: Counter, ks=None):
         for clause, detail in oracle(spec, k, r):
             props.append((spec, k, detail, clause))
     stats["specs"] += 1
+    if spec.get("prior"):
+        pr = spec["prior"]
+        stats["hist_specs"] += 1
+        stats[f"hist_prior_len_{min(len(pr), 3)}"] += 1
+        stats["hist_runs"] += len(ks)
+        pres = r0["prior_res"]
+        if "OSError" in pres and r0["res"] == "ok":
+            stats["hist_ok_after_faulted_call"] += 1
+        if pres and pres[-1] == "ok":
+            stats["hist_resave_after_ok"] += 1 if r0["res"] == "ok" else 0
+        if "ValueError" in pres:
+            stats["hist_prior_refused"] += 1
+        if len(pr) >= 2 and "OSError" in pres and "ok" in pres:
+            stats["hist_mixed_prior"] += 1
+        if any(k is not None for k in ks) :
+            stats["hist_observed_call_faulted"] += 1
     nm = [it["name"] for it in spec["inits"]]
     if len(set(nm)) != len(nm):
         stats["specs_same_name_in_two_graphs"] += 1
@@ -345,7 +486,7 @@ def check_spec(drv, spec: dict, deep, stats: Counter, ks=None):
                 stats["init_scalar"] += 1
         elif key == "E":
             data_rel = L.join(spec.get("dir", ""), spec["name"]) + ".data"
-            key += "_dest" if it["file"] == data_rel else "_other"
+            key += "_dest" if it["file"] == data_rel else ("_modelfile" if it["file"] == L.join(spec.get("dir", ""), spec["name"]) else "_other")
             key += "_small" if it["len"] <= 256 else ("_big" if it["len"] > MIB else "_mid")
             if not it.get("valid", 1):
                 stats["init_E_invalid"] += 1
@@ -355,7 +496,21 @@ def check_spec(drv, spec: dict, deep, stats: Counter, ks=None):
         if it["sub"]:
             stats["init_in_subgraph"] += 1
             stats[f"init_level_{it['sub']}"] += 1
-        for fl in ("is_input", "used", "is_output", "lazy", "tname_differs"):
+        if it["kind"] == "E" and it["file"] == L.join(spec.get("dir", ""), spec["name"]) + ".data":
+            if spec.get("style") == "symdir":
+                stats["dest_tensor_under_symlinked_dir"] += 1
+            if it.get("via_link"):
+                stats["dest_tensor_via_link"] += 1
+            if spec.get("style") == "symdir" and it.get("via_link"):
+                stats["dest_tensor_via_link_under_symlinked_dir"] += 1
+        if it["kind"] == "E" and it["file"] == L.join(spec.get("dir", ""), spec["name"]):
+            if spec.get("style") == "symdir":
+                stats["modelfile_tensor_under_symlinked_dir"] += 1
+            if it.get("via_link"):
+                stats["modelfile_tensor_via_link"] += 1
+            if spec.get("prior"):
+                stats["hist_modelfile_tensor"] += 1
+        for fl in ("is_input", "used", "is_output", "lazy", "tname_differs", "via_link"):
             if it.get(fl):
                 stats[f"init_{fl}"] += 1
                 stats[f"init_{it['kind']}_{fl}"] += 1
@@ -376,7 +531,12 @@ def main(run: core.Run) -> None:
         "fault alphabet: open, write, flush, seek, read, close on files below the model directory (plus os.replace/rename/"
         "remove/mkdir/... should the code start using them); stat-family calls, tell, fileno and the C-level write inside "
         "numpy.ndarray.tofile are not fault points; a fault replaces the call (nothing partial is written by the failed call)",
-        "one fault per run (the k-th call); OS-level partial writes, fsync and crashes are outside",
+        "one fault per call (the k-th file-system call); in histories every call has its own fault plan",
+        "partial writes (a faulted write() that first puts half of its data on disk) are exercised on the real code only: "
+        "property oracle at every write-type fault point, and oracle + tie for the fault-free retry after such a fault; the Lean "
+        "model's faulted call writes nothing; fsync and crashes are outside",
+        "file identity: the Lean model names files canonically (path equality = same file); the harness spells the same file "
+        "through symlinked directories / symlinked files on the real side (dest_spelling_grid, style symdir, via_link)",
         "after a fault nothing is claimed about the files on disk, only about the in-memory model",
         "tensor kinds exercised: ir.Tensor(ndarray), serde.TensorProtoTensor, ir.ExternalTensor (TorchTensor takes the same "
         "file.write(tobytes()) path as TensorProtoTensor and is not instantiated)",
@@ -435,6 +595,7 @@ def main(run: core.Run) -> None:
     specs = [c["spec"] for c in corpus]
     specs += list(guard_grid(run.rng))
     specs += list(same_name_grid(run.rng))
+    specs += list(dest_spelling_grid(run.rng))
     specs += [gen_spec(run.rng, False) for _ in range(n_small)]
     specs += [gen_spec(run.rng, True) for _ in range(n_big)]
     for spec in specs:
@@ -447,6 +608,32 @@ def main(run: core.Run) -> None:
         all_props += p
         if spec["inits"] and len(run.samples) < 6:
             run.sample({"spec": spec, "model_line_k_none": L.model_line(spec, None, deep)})
+
+    # ---- histories: the same model object saved again after a failed / successful / refused save (theorems
+    # history_keeps_model_and_data, save_after_history_roundtrips, retry_after_fault_roundtrips); the oracle compares with the
+    # state before the FIRST call and demands a complete round trip of every fault-free call on a well-formed model
+    for spec, ks in history_specs(run.rng, run.tier != "quick", run.size(12, 80)):
+        key = json.dumps(spec, sort_keys=True)
+        if key in seen:
+            continue
+        seen.add(key)
+        t, p = check_spec(drv, spec, deep, stats, ks=ks)
+        all_ties += t
+        all_props += p
+
+    # ---- partial writes (outside the Lean model: a faulted write() leaves the first half of its data on disk).  (a) single
+    # call, every write-type fault point: the property's oracle only (in-memory model unchanged, guards);  (b) the same fault
+    # in an earlier call followed by a fault-free retry: oracle AND tie (the retry truncates whatever was left behind)
+    for base in history_bases(run.rng, False)[:3]:
+        tr = L.run_real(base, None)["line"].split("trace=")[1].split(" | ")[0].split(",")
+        wks = [i for i, op in enumerate(tr) if op.startswith("w:")]
+        pspec = dict(base, partial=1)
+        t, p = check_spec(drv, pspec, deep, stats, ks=wks, tie=False)
+        all_props += p
+        for k in wks:
+            t, p = check_spec(drv, dict(base, partial=1, prior=[k]), deep, stats, ks=[None])
+            all_ties += t
+            all_props += p
 
     # ---- outside the model: an uninitialized initializer in a sub-graph of a model-local function
     fb = L.function_body_probe()
@@ -538,7 +725,10 @@ def main(run: core.Run) -> None:
     need = ["init_tname_differs", "specs_same_name_in_two_graphs", "specs_same_name_one_uninitialized", "init_level_4", "init_A_of_M", "init_A_of_E", "init_U_is_input", "init_U_used", "init_U_is_output", "init_M_is_input", "init_E_is_input", "init_level_1",
             "init_level_2", "init_level_3", "init_lazy", "init_U_meta_none", "init_U_sub",
             "init_M_np_mid", "init_M_raw_mid", "init_E_other_mid", "init_E_dest_mid", "init_E_dest_small", "init_U_main",
-            "init_zero_size", "init_scalar", "init_M_np_big", "verbose_1", "verbose_2", "style_rel", "dir_sub"]
+            "init_zero_size", "init_scalar", "init_M_np_big", "verbose_1", "verbose_2", "style_rel", "dir_sub",
+            "style_symdir", "init_E_via_link", "dest_tensor_under_symlinked_dir", "dest_tensor_via_link",
+            "dest_tensor_via_link_under_symlinked_dir", "modelfile_tensor_under_symlinked_dir", "modelfile_tensor_via_link", "hist_modelfile_tensor", "init_E_modelfile_small", "init_E_modelfile_mid", "partial_write_faults", "partial_write_then_retry_ok", "hist_specs", "hist_prior_len_1", "hist_prior_len_2", "hist_ok_after_faulted_call", "hist_resave_after_ok",
+            "hist_prior_refused", "hist_mixed_prior", "hist_observed_call_faulted"]
     missing = [n for n in need if stats[n] == 0]
     if missing:
         raise core.Infra(f"generator degenerated: never produced {missing}")
